@@ -1,4 +1,264 @@
 import Ptn.C15.Model
-/-! Property theorems for C15. Only property theorems and non-vacuity examples live here. -/
+import Ptn.C15.Lemmas
+import Ptn.C15.Sem
+/-! Property theorems for C15. Only property theorems and non-vacuity examples live here.
+
+  `generateLindbladian` is the literal port of `generate_lindbladian` (tied to `/repo` by the
+  correspondence stage).  The theorems characterise its output term list for ALL inputs.  The
+  property as stated (GKSL generator) is FALSE of the code: `anticomm_bra_sign_witness` says
+  precisely which prefactor the bra-side anticommutator term receives (finding F-C15). -/
 namespace Ptn.C15
+
+/-- The construction completes and the generated term list is, in this order: the ket terms of the
+    Hamiltonian, its bra terms, the `L ⊗ conj L` terms, and per jump operator the ket-side and the
+    bra-side product term — the latter with prefactor `+f/2` (`termsWithBraSign 1`). -/
+theorem generate_spec (inp : Input) (hw : WellFormed inp) :
+    ∃ h, generateLindbladian inp = some h ∧ h.terms = termsWithBraSign 1 inp := by
+  obtain ⟨h, hg⟩ := generate_succeeds inp hw.2
+  exact ⟨h, hg, generate_terms inp h hw.1 hg⟩
+
+/-- Without the hypothesis on the doubled identifiers: *if* the construction completes, the term
+    list is the closed form. -/
+theorem generate_spec_of_some (inp : Input) (h : Ham)
+    (hn : ∀ j ∈ inp.jumps, (j.tp.map Prod.fst).Nodup) (hg : generateLindbladian inp = some h) :
+    h.terms = termsWithBraSign 1 inp :=
+  generate_terms inp h hn hg
+
+/-- `2·|H| + 3·|J|` terms. -/
+theorem ham_terms_count (inp : Input) (h : Ham) (hn : ∀ j ∈ inp.jumps, (j.tp.map Prod.fst).Nodup)
+    (hg : generateLindbladian inp = some h) :
+    h.terms.length = 2 * inp.ham.terms.length + 3 * inp.jumps.length := by
+  rw [generate_terms inp h hn hg]
+  simp only [termsWithBraSign, List.length_append, List.length_map, List.length_flatMap,
+    List.length_cons, List.length_nil]
+  have : (inp.jumps.map fun _ => 0 + 1 + 1).sum = 2 * inp.jumps.length := by
+    induction inp.jumps with
+    | nil => rfl
+    | cons a l ih => simp only [List.map_cons, List.sum_cons, ih, List.length_cons]; omega
+  omega
+
+/-- Each Hamiltonian term `(f, c, {s ↦ A_s})` yields exactly one ket term — the same prefactor and
+    coefficient, the same labels on the ket identifiers — at position `i`, and one bra term — the
+    prefactor negated, the labels transposed (kept when flagged symmetric, suffixed `_T`
+    otherwise) on the bra identifiers — at position `|H| + i`. -/
+theorem ham_part_spec (inp : Input) (h : Ham) (hn : ∀ j ∈ inp.jumps, (j.tp.map Prod.fst).Nodup)
+    (hg : generateLindbladian inp = some h) (i : Nat) (t : Term)
+    (hi : inp.ham.terms[i]? = some t) :
+    h.terms[i]? = some ⟨t.frac, t.coeff, t.tp.map fun (s, l) => (s ++ inp.ketSuffix, l)⟩ ∧
+    h.terms[inp.ham.terms.length + i]? = some ⟨-t.frac, t.coeff, t.tp.map fun (s, l) =>
+      (s ++ inp.braSuffix, if inp.flags.symH l then l else l ++ "_T")⟩ := by
+  rw [generate_terms inp h hn hg]
+  have hlt : i < inp.ham.terms.length := by
+    rcases Nat.lt_or_ge i inp.ham.terms.length with h | h
+    · exact h
+    · rw [List.getElem?_eq_none h] at hi; simp at hi
+  simp only [termsWithBraSign, List.append_assoc]
+  constructor
+  · rw [List.getElem?_append_left (by simpa using hlt), List.getElem?_map, hi]
+    rfl
+  · rw [List.getElem?_append_right (by simp), List.length_map, Nat.add_sub_cancel_left,
+      List.getElem?_append_left (by simpa using hlt), List.getElem?_map, hi]
+    rfl
+
+/-- Each jump operator `(f, γ, {s ↦ L_s})` yields, at position `2|H| + k`, the term `L ⊗ conj L`
+    with prefactor `f` and coefficient symbol `γ*j` (mapped to `i·γ`): the labels on the ket
+    identifiers, the conjugated labels (kept when flagged real) on the bra identifiers. -/
+theorem jump_part_spec (inp : Input) (h : Ham) (hn : ∀ j ∈ inp.jumps, (j.tp.map Prod.fst).Nodup)
+    (hg : generateLindbladian inp = some h) (k : Nat) (j : Term) (hk : inp.jumps[k]? = some j) :
+    h.terms[2 * inp.ham.terms.length + k]? = some ⟨j.frac, j.coeff ++ "*j",
+      (j.tp.map fun (s, l) => (s ++ inp.ketSuffix, l)) ++
+      (j.tp.map fun (s, l) => (s ++ inp.braSuffix,
+        if inp.flags.real l then l else l ++ "_conj"))⟩ := by
+  rw [generate_terms inp h hn hg]
+  have hlt : k < inp.jumps.length := by
+    rcases Nat.lt_or_ge k inp.jumps.length with h | h
+    · exact h
+    · rw [List.getElem?_eq_none h] at hk; simp at hk
+  simp only [termsWithBraSign]
+  rw [List.getElem?_append_left (by simp; omega), List.getElem?_append_right (by simp; omega)]
+  have : 2 * inp.ham.terms.length + k -
+      (inp.ham.terms.map (ketTermOf inp.ketSuffix) ++
+        inp.ham.terms.map (braTermOf inp.flags.symH inp.braSuffix)).length = k := by
+    simp; omega
+  rw [this, List.getElem?_map, hk]
+  rfl
+
+/-- Ket-side anticommutator: at position `2|H| + |J| + 2k` the term `−(f/2) · γ*j · L†L` on the ket
+    identifiers, `L†L` site by site (`A_H_mult_A`, `A_mult_A` for Hermitian `A`, the other factor
+    when one is the identity). -/
+theorem anticomm_ket_spec (inp : Input) (h : Ham) (hn : ∀ j ∈ inp.jumps, (j.tp.map Prod.fst).Nodup)
+    (hg : generateLindbladian inp = some h) (k : Nat) (j : Term) (hk : inp.jumps[k]? = some j) :
+    h.terms[2 * inp.ham.terms.length + inp.jumps.length + 2 * k]? =
+      some ⟨-(j.frac / 2), j.coeff ++ "*j",
+        j.tp.map fun (s, l) => (s ++ inp.ketSuffix, prodLabel inp.flags inp.jumpKeys l)⟩ := by
+  rw [generate_terms inp h hn hg]
+  simp only [termsWithBraSign]
+  rw [List.getElem?_append_right (by simp; omega)]
+  have : 2 * inp.ham.terms.length + inp.jumps.length + 2 * k -
+      (inp.ham.terms.map (ketTermOf inp.ketSuffix) ++
+        inp.ham.terms.map (braTermOf inp.flags.symH inp.braSuffix) ++
+        inp.jumps.map (jumpTermOf inp.flags.real inp.ketSuffix inp.braSuffix)).length = 2 * k := by
+    simp; omega
+  rw [this]
+  exact (getElem?_flatMap_pair _ _ inp.jumps k j hk).1
+
+/-- **The exact characterisation of finding F-C15.**  At position `2|H| + |J| + 2k + 1` stands the
+    bra-side anticommutator term: the transposed `L†L` labels on the bra identifiers, the same
+    coefficient symbol `γ*j`, and the prefactor **`+f/2`** — the negative of the ket-side
+    prefactor `−f/2` — whereas the GKSL generator of the property prescribes `−f/2` on both
+    sides (see `generated_eq_gksl_iff`). -/
+theorem anticomm_bra_sign_witness (inp : Input) (h : Ham)
+    (hn : ∀ j ∈ inp.jumps, (j.tp.map Prod.fst).Nodup)
+    (hg : generateLindbladian inp = some h) (k : Nat) (j : Term) (hk : inp.jumps[k]? = some j) :
+    (∃ t, h.terms[2 * inp.ham.terms.length + inp.jumps.length + 2 * k + 1]? = some t ∧
+      t.frac = j.frac / 2 ∧ t.coeff = j.coeff ++ "*j" ∧
+      t.tp = (j.tp.map fun (s, l) => (s ++ inp.braSuffix,
+        if inp.flags.symJ (prodLabel inp.flags inp.jumpKeys l)
+        then prodLabel inp.flags inp.jumpKeys l
+        else prodLabel inp.flags inp.jumpKeys l ++ "_T")) ∧
+      (gkslTerms inp)[2 * inp.ham.terms.length + inp.jumps.length + 2 * k + 1]? =
+        some { t with frac := -(j.frac / 2) } ∧
+      t.frac - (-(j.frac / 2)) = j.frac) := by
+  rw [generate_terms inp h hn hg]
+  refine ⟨braProdTermWith (1 * (j.frac / 2)) inp.flags inp.jumpKeys inp.braSuffix j, ?_, ?_, rfl,
+    rfl, ?_, ?_⟩
+  · simp only [termsWithBraSign]
+    rw [List.getElem?_append_right (by simp; omega)]
+    have : 2 * inp.ham.terms.length + inp.jumps.length + 2 * k + 1 -
+        (inp.ham.terms.map (ketTermOf inp.ketSuffix) ++
+          inp.ham.terms.map (braTermOf inp.flags.symH inp.braSuffix) ++
+          inp.jumps.map (jumpTermOf inp.flags.real inp.ketSuffix inp.braSuffix)).length =
+        2 * k + 1 := by
+      simp; omega
+    rw [this]
+    exact (getElem?_flatMap_pair _ _ inp.jumps k j hk).2
+  · simp [braProdTermWith]
+  · simp only [gkslTerms, termsWithBraSign]
+    rw [List.getElem?_append_right (by simp; omega)]
+    have : 2 * inp.ham.terms.length + inp.jumps.length + 2 * k + 1 -
+        (inp.ham.terms.map (ketTermOf inp.ketSuffix) ++
+          inp.ham.terms.map (braTermOf inp.flags.symH inp.braSuffix) ++
+          inp.jumps.map (jumpTermOf inp.flags.real inp.ketSuffix inp.braSuffix)).length =
+        2 * k + 1 := by
+      simp; omega
+    rw [this, (getElem?_flatMap_pair _ _ inp.jumps k j hk).2]
+    simp [braProdTermWith]
+  · simp only [braProdTermWith, Rat.one_mul]
+    rw [Rat.sub_eq_add_neg, Rat.neg_neg]
+    grind
+
+/-- The generated list is the GKSL list if and only if every jump prefactor is zero. -/
+theorem generated_eq_gksl_iff (inp : Input) (h : Ham)
+    (hn : ∀ j ∈ inp.jumps, (j.tp.map Prod.fst).Nodup) (hg : generateLindbladian inp = some h) :
+    h.terms = gkslTerms inp ↔ ∀ j ∈ inp.jumps, j.frac = 0 := by
+  rw [generate_terms inp h hn hg]
+  simp only [gkslTerms, termsWithBraSign, List.append_cancel_left_eq]
+  induction inp.jumps with
+  | nil => simp
+  | cons j js ih =>
+    simp only [List.flatMap_cons, List.cons_append, List.nil_append, List.cons.injEq, true_and,
+      List.mem_cons, forall_eq_or_imp, ih]
+    apply and_congr_left'
+    simp only [braProdTermWith, Term.mk.injEq, and_true]
+    constructor
+    · intro hf; grind
+    · intro hf; rw [hf]; grind
+
+/-- Everything else is as the GKSL generator prescribes: the generated list and the GKSL list
+    differ only in the prefactor of the bra-side product terms. -/
+theorem residual_spec (inp : Input) (h : Ham) (hn : ∀ j ∈ inp.jumps, (j.tp.map Prod.fst).Nodup)
+    (hg : generateLindbladian inp = some h) :
+    h.terms.length = (gkslTerms inp).length ∧
+    h.terms.map (fun t => (t.coeff, t.tp)) = (gkslTerms inp).map (fun t => (t.coeff, t.tp)) ∧
+    h.terms.take (2 * inp.ham.terms.length + inp.jumps.length) =
+      (gkslTerms inp).take (2 * inp.ham.terms.length + inp.jumps.length) := by
+  rw [generate_terms inp h hn hg]
+  simp only [gkslTerms, termsWithBraSign]
+  refine ⟨by simp, ?_, ?_⟩
+  · simp only [List.map_append, List.map_flatMap]
+    rfl
+  · rw [List.take_left' (by simp; omega), List.take_left' (by simp; omega)]
+
+/-- `rate = (dense coefficient)²`: with `c² = f·γ` the three scalar prefactors of the symbolic
+    construction (`f·iγ`, `−f/2·iγ`, `+f/2·iγ`) are those of `exact_lindbladian`
+    (`1j·c²`, `−1j/2·c²`, `+1j/2·c²`) — both constructions carry the same (wrong) sign. -/
+theorem symbolic_dense_prefactors_agree (f γ c2 : Rat) (h : c2 = f * γ) :
+    symbolicJumpPrefactors f γ = exactJumpPrefactors c2 := by
+  subst h
+  simp only [symbolicJumpPrefactors, exactJumpPrefactors, Prod.mk.injEq, GRat.mk.injEq, true_and]
+  refine ⟨by grind, by grind, by grind⟩
+
+/-! ### Soundness of the labelling shortcuts (per site) -/
+
+section sem
+open Matrix
+variable {n : Type} [Fintype n] [DecidableEq n]
+
+/-- Whatever shortcut is taken, the label written on the bra side of a Hamiltonian term denotes the
+    transpose, the one written on the bra side of a jump term the complex conjugate, the product
+    label denotes `L_s† L_s`, and its bra-side version the transpose of that — provided the final
+    conversion dictionary gives the derived labels their values and the flags are sound. -/
+theorem label_shortcuts_sound (fl : Flags) (jk : List Label) (den : Label → Matrix n n ℂ)
+    (hd : DictSound den) (hf : FlagsSound fl den) (l : Label) :
+    den (if fl.symH l then l else l ++ "_T") = (den l)ᵀ ∧
+    den (if fl.real l then l else l ++ "_conj") = (den l).map star ∧
+    den (prodLabel fl jk l) = (den l)ᴴ * den l ∧
+    den (if fl.symJ (prodLabel fl jk l) then prodLabel fl jk l else prodLabel fl jk l ++ "_T") =
+      ((den l)ᴴ * den l)ᵀ := by
+  have hp : den (prodLabel fl jk l) = (den l)ᴴ * den l := by
+    simp only [prodLabel]
+    rw [multLabel_sound _ den hd (idDictAfterH_sound fl den hf jk)]
+    congr 1
+    split
+    · rename_i h; exact (hf.herm l h).symm
+    · exact hd.adj l
+  refine ⟨?_, ?_, hp, ?_⟩
+  · split
+    · rename_i h; exact (hf.symH l h).symm
+    · exact hd.transp l
+  · split
+    · rename_i h; exact (hf.real l h).symm
+    · exact hd.conj l
+  · split
+    · rename_i h; rw [← hp]; exact (hf.symJ _ h).symm
+    · rw [hd.transp, hp]
+
+end sem
+
+/-! ### Non-vacuity and the concrete witness -/
+
+example : WellFormed exampleInput := by
+  refine ⟨?_, ?_⟩ <;> intro j hj <;> simp [exampleInput] at hj <;> subst hj <;>
+    simp [DoubledDistinct] <;> decide
+
+/-- the generated terms of the example … -/
+example : (generateLindbladian exampleInput).map (·.terms) = some
+    [⟨1/2, "J", [("s0_ket", "X")]⟩, ⟨-1/2, "J", [("s0_bra", "X")]⟩,
+     ⟨3/4, "g*j", [("s0_ket", "A"), ("s0_bra", "A_conj")]⟩,
+     ⟨-3/8, "g*j", [("s0_ket", "A_H_mult_A")]⟩,
+     ⟨3/8, "g*j", [("s0_bra", "A_H_mult_A_T")]⟩] := by decide +kernel
+
+/-- … differ from the GKSL prescription in the last prefactor (`+3/8` instead of `−3/8`). -/
+example : (generateLindbladian exampleInput).map (·.terms) ≠ some (gkslTerms exampleInput) ∧
+    (gkslTerms exampleInput)[4]? = some ⟨-3/8, "g*j", [("s0_bra", "A_H_mult_A_T")]⟩ := by
+  decide +kernel
+
+open Matrix in
+/-- the hypotheses of `label_shortcuts_sound` are satisfiable by a dictionary that is not the
+    identity: every label denotes the projector `diag(1, 0)` (real, symmetric, Hermitian,
+    idempotent, not the identity), flagged accordingly -/
+example : DictSound (fun _ : Label => (!![1, 0; 0, 0] : Matrix (Fin 2) (Fin 2) ℂ)) ∧
+    FlagsSound ⟨fun _ => true, fun _ => true, fun _ => false, fun _ => true, fun _ => true⟩
+      (fun _ : Label => (!![1, 0; 0, 0] : Matrix (Fin 2) (Fin 2) ℂ)) := by
+  have hT : (!![1, 0; 0, 0] : Matrix (Fin 2) (Fin 2) ℂ)ᵀ = !![1, 0; 0, 0] := by
+    ext i j; fin_cases i <;> fin_cases j <;> rfl
+  have hC : (!![1, 0; 0, 0] : Matrix (Fin 2) (Fin 2) ℂ).map star = !![1, 0; 0, 0] := by
+    ext i j; fin_cases i <;> fin_cases j <;> simp
+  have hH : (!![1, 0; 0, 0] : Matrix (Fin 2) (Fin 2) ℂ)ᴴ = !![1, 0; 0, 0] := by
+    ext i j; fin_cases i <;> fin_cases j <;> simp [Matrix.conjTranspose_apply]
+  have hM : (!![1, 0; 0, 0] : Matrix (Fin 2) (Fin 2) ℂ) * !![1, 0; 0, 0] = !![1, 0; 0, 0] := by
+    ext i j; fin_cases i <;> fin_cases j <;> simp [Matrix.mul_apply, Fin.sum_univ_two]
+  exact ⟨⟨fun _ => hT.symm, fun _ => hC.symm, fun _ => hH.symm, fun _ _ => hM.symm⟩,
+    ⟨fun _ _ => hT, fun _ _ => hT, fun _ _ => hC, fun _ _ => hH, fun _ h => by simp at h⟩⟩
+
 end Ptn.C15
